@@ -230,7 +230,22 @@ _EXIT = {'R': 'return', 'X': 'raise', 'C': 'cycle', 'N': 'fall'}
 
 
 _EMPTY_CTORS = {'list', 'dict', 'set', 'tuple'}
-_MUT = {'append', 'extend', 'insert', 'add', 'update', 'setdefault', 'appendleft', 'push'}
+_GROW = {'append', 'insert', 'add', 'appendleft'}
+_MAYGROW = {'extend', 'update', 'setdefault'}
+_SHRINK = {'pop', 'remove', 'clear', 'discard', 'popitem', 'popleft'}
+
+
+def _touch(env, key, attr):
+    """state of a tracked container after <name>.<attr>(...)"""
+    st = env.get(key)
+    if attr in _GROW:
+        env[key] = ('nonempty',)
+    elif attr in _MAYGROW:
+        if st is not None and st[0] == 'empty':
+            env.pop(key, None)
+    elif attr in _SHRINK:
+        if st is not None and st[0] == 'nonempty':
+            env.pop(key, None)
 
 
 _READ_ONLY = {'len', 'sorted', 'list', 'tuple', 'set', 'frozenset', 'sum', 'min', 'max', 'any', 'all', 'str',
@@ -271,6 +286,8 @@ def _truth(test, env, fid):
         st = env.get((fid, test.id))
         if st is None:
             return None
+        if st[0] == 'nonempty':
+            return True
         return False if st[0] == 'empty' else bool(st[1])
     if isinstance(test, ast.Call) and isinstance(test.func, ast.Name) and test.func.id in ('len', 'bool') \
             and len(test.args) == 1:
@@ -281,6 +298,18 @@ def _truth(test, env, fid):
             if isinstance(a, ast.Call) and isinstance(a.func, ast.Name) and a.func.id == 'len' and len(a.args) == 1 \
                     and isinstance(a.args[0], ast.Name) and isinstance(b, ast.Constant) and isinstance(b.value, int):
                 st = env.get((fid, a.args[0].id))
+                if st is not None and st[0] == 'nonempty':
+                    n = b.value
+                    o = type(op)
+                    if flip:
+                        o = {ast.Lt: ast.Gt, ast.Gt: ast.Lt, ast.LtE: ast.GtE, ast.GtE: ast.LtE}.get(o, o)
+                    # len >= 1
+                    if n <= 0:
+                        return {ast.Eq: False, ast.NotEq: True, ast.Gt: True, ast.GtE: True,
+                                ast.Lt: False, ast.LtE: False}.get(o)
+                    if n == 1:
+                        return {ast.GtE: True, ast.Lt: False}.get(o)
+                    return None
                 if st is not None and st[0] == 'empty':
                     n = b.value
                     o = type(op)
@@ -308,14 +337,21 @@ def locally_feasible(events):
             for x in ast.walk(n):
                 if isinstance(x, ast.Name) and isinstance(x.ctx, (ast.Store, ast.Del)):
                     env.pop((fid, x.id), None)
-                elif isinstance(x, ast.Attribute) and isinstance(x.value, ast.Name) and x.attr in _MUT:
-                    env.pop((fid, x.value.id), None)
+                elif isinstance(x, ast.Attribute) and isinstance(x.value, ast.Name) and \
+                        x.attr in _GROW | _MAYGROW | _SHRINK:
+                    st = env.get((fid, x.value.id))
+                    if st is not None and ((st[0] == 'empty' and x.attr in _GROW | _MAYGROW) or
+                                           (st[0] == 'nonempty' and x.attr in _SHRINK)):
+                        env.pop((fid, x.value.id), None)
                 elif isinstance(x, ast.Call) and not _harmless_call(x):
                     for a in list(x.args) + [k.value for k in x.keywords]:
                         if isinstance(a, ast.Name):
                             st = env.get((fid, a.id))
-                            if st is not None and st[0] == 'empty':
+                            if st is not None and st[0] in ('empty', 'nonempty'):
                                 env.pop((fid, a.id), None)
+                elif isinstance(x, ast.Subscript) and isinstance(x.ctx, (ast.Store, ast.Del)) and isinstance(
+                        x.value, ast.Name):
+                    env.pop((fid, x.value.id), None)
             continue
         if e.kind == 'test':
             v = _truth(n, env, fid)
@@ -326,16 +362,17 @@ def locally_feasible(events):
         roots = [it.context_expr for it in n.items] if e.extra == 'with' else [n]
         for root in roots:
             for x in ast.walk(root):
-                if isinstance(x, ast.Attribute) and isinstance(x.value, ast.Name) and x.attr in _MUT:
-                    env.pop((fid, x.value.id), None)
-                elif isinstance(x, ast.Call) and not _harmless_call(x):
+                if isinstance(x, ast.Call) and isinstance(x.func, ast.Attribute) and isinstance(
+                        x.func.value, ast.Name) and x.func.attr in _GROW | _MAYGROW | _SHRINK:
+                    _touch(env, (fid, x.func.value.id), x.func.attr)
+                if isinstance(x, ast.Call) and not _harmless_call(x):
                     for a in list(x.args) + [k.value for k in x.keywords]:
                         if isinstance(a, ast.Name):
                             st = env.get((fid, a.id))
-                            if st is not None and st[0] == 'empty':
+                            if st is not None and st[0] in ('empty', 'nonempty'):
                                 env.pop((fid, a.id), None)
-                elif isinstance(x, (ast.Subscript, ast.Attribute)) and isinstance(x.ctx, ast.Store) and isinstance(
-                        x.value, ast.Name):
+                elif isinstance(x, (ast.Subscript, ast.Attribute)) and isinstance(x.ctx, (ast.Store, ast.Del)) \
+                        and isinstance(x.value, ast.Name):
                     env.pop((fid, x.value.id), None)
         if e.kind == 'stmt' and e.extra != 'with':
             if isinstance(n, ast.Assign):
@@ -363,7 +400,7 @@ def locally_feasible(events):
                     elif isinstance(v, ast.Starred):
                         yield from escaping(v.value)
                 for x in escaping(n.value):
-                    if env.get((fid, x.id), ('',))[0] == 'empty':
+                    if env.get((fid, x.id), ('',))[0] in ('empty', 'nonempty'):
                         env.pop((fid, x.id), None)
                 if st is not None:
                     env[(fid, n.targets[0].id)] = st
